@@ -807,8 +807,17 @@ def disable_pattern_sets(ctx):
                             continue
                         pat, fl = rv.pattern, rv.flags
                         subj = c.args[0] if c.args else None
+                    if isinstance(pat, tuple) and pat[:1] == ('@each',):
+                        # applied to every element of a constant sequence in turn: the same language as their alternation
+                        pat = '|'.join(pat[1])
                     need(isinstance(pat, str) and fl is not None, 'C10.R6: the pattern applied by %s is not built from constant marker patterns' % ctx.src(c, 80))
                     found.append({'node': n, 'call': c, 'method': c.func.attr, 'pattern': pat, 'alts': split_alternatives(pat), 'flags': fl, 'subject': subj})
+            if n.kind == 'for' and isinstance(n.ast, ast.For) and isinstance(n.ast.target, ast.Name):
+                seq = _value(n.ast.iter, env, mod)
+                if isinstance(seq, tuple) and seq and all(isinstance(x, str) for x in seq):
+                    env[n.ast.target.id] = ('@each', seq)
+                else:
+                    env.pop(n.ast.target.id, None)
             if n.kind == 'stmt':
                 st = n.ast
                 if isinstance(st, ast.Assign) and len(st.targets) == 1 and isinstance(st.targets[0], ast.Name):
@@ -875,6 +884,11 @@ def disable_marker_anchored(ctx, rule):
     for lst in apps.values():
         c = lst[0]['call']
         subj = lst[0]['subject']
+        if isinstance(subj, ast.Name):
+            # the source held in a local first
+            ds_ = [d for d in ctx.rd(f).at(lst[0]['node'], subj.id)]
+            if len(ds_) == 1 and isinstance(ds_[0].value, ast.AST):
+                subj = ds_[0].value
         on_src = subj is not None and isinstance(subj, ast.Attribute) and subj.attr == 'docsrc' and is_name(subj.value, recv)
         anchored = True
         for a in lst:
